@@ -186,3 +186,9 @@ pub enum TryReserveError {
         layout: alloc::alloc::Layout,
     },
 }
+
+/// Verification hooks; only present with `--cfg hashbrown_verif`.
+#[cfg(hashbrown_verif)]
+pub mod verif {
+    pub use crate::raw::verif_hooks::*;
+}
